@@ -126,6 +126,9 @@ func newResExec(k *Cfg) (*resExec, error) {
 	if err := writeCfg(k, nil); err != nil {
 		return nil, err
 	}
+	if err := applyLiveness(k); err != nil {
+		return nil, err
+	}
 	clk, cancel := freshClock()
 	rm, err := resources.NewResourceManagement()
 	if err != nil {
